@@ -122,7 +122,7 @@ var props = map[string]*propConfig{
 			"sequentially consistent memory: weak-memory reorderings are not explored",
 			"sampling, not enumeration: a clean batch is evidence, not proof",
 		},
-		Probes: []string{"clock-jump"},
+		Probes: []string{"clock-jump", "remap-after-growth"},
 	},
 	"C04": {
 		Harness: "h1", Level: "exploration",
@@ -138,7 +138,7 @@ var props = map[string]*propConfig{
 			"scheduling points as in C03; sequentially consistent memory",
 			"sampling, not enumeration",
 		},
-		Probes: []string{"kill:step", "kill:CompareAndSwap @file.go", "kill:fs:writeat"},
+		Probes: []string{"kill:step", "kill:CompareAndSwap @file.go", "kill:fs:writeat", "remap-after-growth"},
 	},
 	"C10": {
 		Harness: "h1", Level: "exploration",
